@@ -129,10 +129,11 @@ structure Checks where
 def checksCur : Checks := ⟨fracBadCur, probBadCur, sumBadCur⟩
 def checksFixed : Checks := ⟨fracBadFixed, probBadFixed, sumBadFixed⟩
 
-/-! **MIRROR POINT**: these three definitions say which style /repo uses today. -/
-def fracBad : FV → Bool := fracBadCur
-def probBad : FV → Bool := probBadCur
-def sumBad : FV → Bool := sumBadCur
+/-! **MIRROR POINT**: these three definitions say which style /repo uses today
+    (the NaN-rejecting style since fix 65165a2; `…Cur` is the style before that fix). -/
+def fracBad : FV → Bool := fracBadFixed
+def probBad : FV → Bool := probBadFixed
+def sumBad : FV → Bool := sumBadFixed
 
 /-- the tests used by the code today -/
 def checks : Checks := ⟨fracBad, probBad, sumBad⟩
